@@ -110,85 +110,78 @@ theorem inter_prec (c d : Interval ℝ) : (c.inter d).prec = max c.prec d.prec :
 
 /-! ## emptiness -/
 
-/-- `isEmpty` is reported iff the denoted set is empty -/
-theorem isEmpty_iff (c : Interval ℝ) : c.isEmpty = true ↔ c.denote = ∅ := by
-  rw [Set.eq_empty_iff_forall_notMem]
+/-- **isEmpty_iff_real** (full strength, no guard): emptiness is reported iff no real number is
+accepted — for every combination of bounds (finite, equal, crossed, infinite on either side,
+`[+inf,+inf]` and `[-inf,-inf]` included) and flags -/
+theorem isEmpty_iff_real (c : Interval ℝ) : c.isEmpty = true ↔ ∀ v : ℝ, c.isCorrect v = false := by
+  have fin_mem : ∀ v : ℝ, c.isCorrect v = false ↔ ¬ ((v : EReal) ∈ c.denote) := by
+    intro v; rw [Bool.eq_false_iff, Ne, isCorrect_iff]
   constructor
-  · intro hE x hx
-    rw [mem_denote] at hx
-    obtain ⟨h1, h2⟩ := hx
-    rcases (isEmpty_iff_cond c).1 hE with h | ⟨h, a | b⟩
+  · intro hE v
+    rw [fin_mem, mem_denote]
+    rintro ⟨h1, h2⟩
+    rcases (isEmpty_iff_cond c).1 hE with h | ⟨h, a | b | l | u⟩
     · split_ifs at h1 h2 <;> order
     · simp only [a, Bool.false_eq_true, if_false] at h1
       split_ifs at h2 <;> order
     · simp only [b, Bool.false_eq_true, if_false] at h2
       split_ifs at h1 <;> order
+    · -- lo = hi = -inf: a real is not below -inf
+      have : (v : EReal) ≤ ⊥ := by rw [← l, h]; split_ifs at h2 <;> order
+      exact absurd (le_bot_iff.1 this) (EReal.coe_ne_bot v)
+    · have : (⊤ : EReal) ≤ v := by rw [← u, ← h]; split_ifs at h1 <;> order
+      exact absurd (top_le_iff.1 this) (EReal.coe_ne_top v)
   · intro hall
     by_contra hne
     obtain ⟨h1, h2⟩ := not_isEmpty_cond c hne
-    rcases lt_or_eq_of_le h1 with hlt | heq
-    · obtain ⟨x, hx1, hx2⟩ := exists_between hlt
-      apply hall x
-      rw [mem_denote]
-      refine ⟨?_, ?_⟩ <;> split_ifs <;> order
-    · obtain ⟨a, b⟩ := h2 heq
-      apply hall c.lo.toEReal
-      rw [mem_denote]
-      simp only [a, b, if_true]
-      exact ⟨le_refl _, heq.le⟩
-
-/-- … iff no double (infinite ones included) is accepted -/
-theorem isEmpty_iff_forall (c : Interval ℝ) : c.isEmpty = true ↔ ∀ v : Bound ℝ, c.isCorrectB v = false := by
-  rw [isEmpty_iff, Set.eq_empty_iff_forall_notMem]
-  constructor
-  · intro h v
-    rw [Bool.eq_false_iff, Ne, isCorrectB_iff]; exact h _
-  · intro h x
-    obtain ⟨b, rfl⟩ := Bound.toEReal_surjective x
-    rw [← isCorrectB_iff]; simp [h b]
-
-/-- Emptiness over the *reals*.  Full statement wanted: `c.isEmpty ↔ ∀ v : ℝ, ¬ c.isCorrect v`.
-It is false for `[+inf,+inf]` and `[-inf,-inf]` (`isEmpty_real_witness`), which accept the infinite
-double only; it holds under the guard `proper` (lower bound not `+inf`, upper bound not `-inf`). -/
-theorem isEmpty_iff_real_partial (c : Interval ℝ) (hp : c.proper = true) :
-    c.isEmpty = true ↔ ∀ v : ℝ, c.isCorrect v = false := by
-  constructor
-  · intro h v; exact (isEmpty_iff_forall c).1 h (.fin v)
-  · intro hall
-    by_contra hne
-    have hlo : c.lo.toEReal ≠ ⊤ := by
-      intro h; unfold proper at hp
-      cases hl : c.lo <;> simp_all
-    have hhi : c.hi.toEReal ≠ ⊥ := by
-      intro h; unfold proper at hp
-      cases hl : c.hi <;> simp_all
-    obtain ⟨h1, h2⟩ := not_isEmpty_cond c hne
-    have fin_acc : ∀ v : ℝ, ¬ ((v : EReal) ∈ c.denote) := by
-      intro v hv; have := hall v; rw [Bool.eq_false_iff, Ne, isCorrect_iff] at this; exact this hv
     rcases lt_or_eq_of_le h1 with hlt | heq
     · obtain ⟨x, hx1, hx2⟩ := EReal.lt_iff_exists_real_btwn.1 hlt
-      apply fin_acc x
+      apply (fin_mem x).1 (hall x)
       rw [mem_denote]
       refine ⟨?_, ?_⟩ <;> split_ifs <;> order
     · obtain ⟨a, b⟩ := h2 heq
-      -- the common bound is finite
-      cases hl : c.lo with
-      | negInf => rw [hl] at heq; exact hhi heq.symm
-      | posInf => rw [hl] at hlo; exact hlo rfl
-      | fin x =>
-        apply fin_acc x
-        rw [mem_denote]
-        simp only [a, b, if_true, hl, Bound.toEReal_fin] at *
-        exact ⟨le_refl _, heq.le⟩
+      obtain ⟨x, hl, hh⟩ := not_isEmpty_finite c hne heq
+      apply (fin_mem x).1 (hall x)
+      rw [mem_denote]
+      simp only [a, b, if_true, hl, hh, Bound.toEReal_fin]
+      exact ⟨le_refl _, le_refl _⟩
 
-/-- the guard of `isEmpty_iff_real_partial` is needed: `[+inf,+inf]` accepts no real, yet is not
-reported empty -/
-theorem isEmpty_real_witness :
+/-- the same with sets: `isEmpty` iff the denoted set contains no real number -/
+theorem isEmpty_iff (c : Interval ℝ) : c.isEmpty = true ↔ c.denote ∩ Set.range ((↑) : ℝ → EReal) = ∅ := by
+  rw [isEmpty_iff_real, Set.eq_empty_iff_forall_notMem]
+  constructor
+  · rintro h x ⟨hx, v, rfl⟩
+    have := h v; rw [Bool.eq_false_iff, Ne, isCorrect_iff] at this; exact this hx
+  · intro h v
+    rw [Bool.eq_false_iff, Ne, isCorrect_iff]
+    exact fun hv => h v ⟨hv, v, rfl⟩
+
+/-- a non-empty interval has a real member (the witness the driver looks for among its probe
+points: a bound or a point between the bounds) -/
+theorem not_isEmpty_iff_exists (c : Interval ℝ) : c.isEmpty = false ↔ ∃ v : ℝ, c.isCorrect v = true := by
+  rw [← Bool.not_eq_true, isEmpty_iff_real]
+  push Not
+  simp only [Bool.not_eq_false]
+
+/-- an interval that accepts no double at all (infinite ones included) is reported empty; the
+converse is *not* demanded by the property and does not hold: `[+inf,+inf]` accepts the infinite
+double `+inf`, which is not a real number, and is reported empty (`isEmpty_infinite_point`) -/
+theorem isEmpty_of_denote_empty (c : Interval ℝ) (h : c.denote = ∅) : c.isEmpty = true := by
+  rw [isEmpty_iff, h, Set.empty_inter]
+
+theorem isEmpty_infinite_point :
     let c : Interval ℝ := Interval.make .posInf .posInf true true 0
-    c.isEmpty = false ∧ ∀ v : ℝ, c.isCorrect v = false := by
-  refine ⟨by simp [Interval.make, isEmpty, Bound.gtb, Bound.ltb, Bound.eqb], ?_⟩
-  intro v
-  simp [Interval.make, isCorrect, isCorrectB, Bound.geb, Bound.leb]
+    let d : Interval ℝ := Interval.make .negInf .negInf true true 0
+    c.isEmpty = true ∧ c.isCorrectB .posInf = true ∧ d.isEmpty = true ∧ d.isCorrectB .negInf = true := by
+  simp [Interval.make, isEmpty, isCorrectB, finiteLowerBound, finiteUpperBound, Bound.gtb, Bound.geb, Bound.ltb,
+    Bound.leb, Bound.eqb]
+
+/-- the intersection is reported empty iff no real is accepted by both operands -/
+theorem inter_isEmpty_iff (c d : Interval ℝ) :
+    (c.inter d).isEmpty = true ↔ ∀ v : ℝ, ¬ (c.isCorrect v = true ∧ d.isCorrect v = true) := by
+  rw [isEmpty_iff_real]
+  refine forall_congr' fun v => ?_
+  rw [Bool.eq_false_iff, Ne, inter_iff]
 
 /-! ## limits -/
 
@@ -657,7 +650,21 @@ theorem legacy_isEmpty_witness :
     let c : Interval ℝ := Interval.make (.fin 1) (.fin 1) true false 0
     Interval.Legacy.isEmpty c = false ∧ c.denote = ∅ := by
   refine ⟨by simp [Interval.Legacy.isEmpty, Interval.make, Bound.gtb, Bound.ltb], ?_⟩
-  rw [← isEmpty_iff]; simp [isEmpty, Interval.make, Bound.gtb, Bound.ltb, Bound.eqb]
+  simp only [Interval.make]
+  rw [denote_co]
+  exact Set.Ico_self _
+
+/-- `isEmpty_iff_real` still failed after that repair: `[+inf,+inf]` and `[-inf,-inf]` accept no
+real number, yet were not reported empty (second repair of `isEmpty`) -/
+theorem legacy_isEmpty_infinite_witness :
+    let c : Interval ℝ := Interval.make .posInf .posInf true true 0
+    let d : Interval ℝ := Interval.make .negInf .negInf true true 0
+    Interval.Legacy.isEmpty1 c = false ∧ (∀ v : ℝ, c.isCorrect v = false) ∧
+    Interval.Legacy.isEmpty1 d = false ∧ (∀ v : ℝ, d.isCorrect v = false) := by
+  refine ⟨by simp [Interval.make, Interval.Legacy.isEmpty1, Bound.gtb, Bound.ltb, Bound.eqb], ?_,
+    by simp [Interval.make, Interval.Legacy.isEmpty1, Bound.gtb, Bound.ltb, Bound.eqb], ?_⟩
+  · intro v; simp [Interval.make, isCorrect, isCorrectB, Bound.geb, Bound.leb]
+  · intro v; simp [Interval.make, isCorrect, isCorrectB, Bound.geb, Bound.leb]
 
 /-- `inter_iff` failed: `]0,1] & [0,1]` accepted 0, which the left operand rejects
 (both for `operator&` and `operator&=`) -/
